@@ -40,7 +40,7 @@ def replay_failure(prop, res, ov, run_one):
         "bound": h.bound,
     }
     out = {"reproduced": False, "path": path, "why": "", "mode": ""}
-    if h.stubbing:
+    if not h.replay.startswith("native"):
         import scenarios
         sc = scenarios.reenact(prop, res, ov, rec)
         out.update(sc)
@@ -50,31 +50,34 @@ def replay_failure(prop, res, ov, run_one):
         return out
     # 1. ask Kani for the concrete assignment, written in place as a unit test
     import driver
-    hfile = os.path.join(ov, "h", h.file)
-    before = open(hfile).read()
-    r2 = run_one(h, ov, os.path.join(ov, "t_replay"), extra=["-Z", "concrete-playback", "--concrete-playback=inplace"])
-    after = open(hfile).read()
-    m = re.search(r"fn (kani_concrete_playback_%s_\w+)\s*\(" % re.escape(h.name), after)
-    if after == before or not m:
+    base = driver.base_dir(ov, h)
+    hfile = os.path.join(base, "src", "h.rs") if base.endswith("diff") else os.path.join(base, "h", h.file)
+    # `print` mode (in-place insertion lands inside macro definitions for macro-generated
+    # harnesses and is then expanded more than once)
+    r2 = run_one(h, ov, os.path.join(ov, "t_replay"), extra=["-Z", "concrete-playback", "--concrete-playback=print"])
+    logtext = open(r2.log_path, errors="replace").read() if r2.log_path else ""
+    tm = re.search(r"Concrete playback unit test for `[^`]*`:\s*```\n(.*?)```", logtext, re.S)
+    m = re.search(r"fn (kani_concrete_playback_\w+)\s*\(", tm.group(1)) if tm else None
+    if not tm or not m:
         out["why"] = "Kani produced no concrete playback test (%s)" % (r2.reason or r2.status)
         rec["replay"] = out
         with open(path, "w") as fh:
             json.dump(rec, fh, indent=1)
         return out
     test = m.group(1)
-    added = after[after.index("#[test]", after.index(test) - 200 if after.index(test) > 200 else 0):] if "#[test]" in after else ""
-    # the generated test, for the record
-    tm = re.search(r"(/// Test generated for harness.*?^})\s*$", after, re.S | re.M)
-    rec["concrete_test"] = tm.group(1) if tm else added[:4000]
-    vals = re.findall(r"//\s*(.*)\n\s*vec!\[([0-9, ]*)\]", after)
-    rec["assignment"] = [{"value": a.strip(), "bytes": b.strip()} for a, b in vals][:200]
-    # 2. run it natively, dev profile (what Kani models) and release profile (what users run)
+    rec["concrete_test"] = tm.group(1)
+    with open(hfile, "a") as fh:
+        fh.write("\n" + tm.group(1) + "\n")
+    vals = re.findall(r"//\s*(.*)\n\s*vec!\[([0-9, ]*)\]", tm.group(1))
+    rec["assignment"] = [{"value": a_.strip(), "bytes": b_.strip()} for a_, b_ in vals][:300]
+    # 2. run it natively (dev profile, the one Kani models; `cargo kani playback` has no
+    #    release mode)
     runs = []
     reproduced = False
-    for prof in ([], ["--release"]):
+    for prof in ([],):
         cmd = ["cargo", "kani", "playback", "-Z", "concrete-playback"] + prof + ["--", test]
         t0 = time.time()
-        p = subprocess.run(cmd, cwd=ov, env=_env(), stdout=subprocess.PIPE, stderr=subprocess.STDOUT,
+        p = subprocess.run(cmd, cwd=base, env=_env(), stdout=subprocess.PIPE, stderr=subprocess.STDOUT,
                            timeout=1800, text=True, errors="replace")
         txt = p.stdout
         failed = bool(re.search(r"test result: FAILED|panicked at", txt)) and "1 failed" in txt
@@ -109,9 +112,23 @@ def replay_file(path):
         return 2
     h = h[0]
     if "concrete_test" not in rec:
-        print("this record has no native unit test (stubbed harness); see its 'replay' field")
-        print(json.dumps(rec.get("replay"), indent=1))
-        return 2
+        if not rec.get("scenario"):
+            print("this record has neither a native unit test nor a reproducing scenario; see its 'replay' field")
+            print(json.dumps(rec.get("replay"), indent=1))
+            return 2
+        import scenarios
+        ov = tempfile.mkdtemp(prefix="verif-replay-", dir=os.environ.get("VERIF_SCRATCH", "/tmp"))
+        try:
+            overlay.build(ov, gen_for)
+            results = scenarios.run_scenarios(ov, [rec["scenario"]])
+            print(json.dumps(results, indent=1))
+            if any(r.get("reproduced") for r in results):
+                print("VIOLATION property=%s replay=%s" % (rec["property"], path))
+                return 1
+            print("the recorded scenario does not reproduce on the current tree")
+            return 0
+        finally:
+            shutil.rmtree(ov, ignore_errors=True)
     ov = tempfile.mkdtemp(prefix="verif-replay-", dir=os.environ.get("VERIF_SCRATCH", "/tmp"))
     try:
         overlay.build(ov, gen_for)
